@@ -407,6 +407,51 @@ def user_kind_with_a_queue(M, rec, rng, reps):
                     break
 
 
+def user_origin_with_a_speed_state(M, rec, rng, reps):
+    """A user-defined ORIGIN kind that owns a speed state (a virtual upstream cell) and honours `positive_init_speed`:
+    requesting positive initial speeds through Network.step = the plain step on max(0, speed), for that origin as for the links."""
+    import copy
+
+    from vf import userkinds as UK
+
+    NE, CE = drive.engines(M)
+    for _ in range(reps):
+        N_ = rng.choice((1, 2, 3))
+
+        def build():
+            l1 = M.Link(N_, 2, 1.0, 180.0, 33.5, 102.0, 1.867, name="L1")
+            o = UK.BoundaryCell(name="O1")
+            net = M.Network().add_path((M.Node(name="A"), l1, M.Node(name="B")), origin=o, destination=M.Destination(name="D1"))
+            return net, l1, o
+
+        vals = {"L1": {"rho": [rng.uniform(5, 60) for _i in range(N_)], "v": [rng.choice((-8.0, rng.uniform(30, 100))) for _i in range(N_)]},
+                "O1": {"w": [rng.uniform(0.0, 20.0)], "v_in": [rng.choice((-25.0, -3.0, 40.0))], "d": [rng.uniform(500, 3000)], "v_ctrl": [300.0]}}
+        clamped = copy.deepcopy(vals)
+        clamped["L1"]["v"] = [max(0.0, x) for x in vals["L1"]["v"]]
+        clamped["O1"]["v_in"] = [max(0.0, vals["O1"]["v_in"][0])]
+        kw = dict(T=10 / 3600, tau=18 / 3600, eta=60.0, kappa=40.0)
+
+        def run(v, **opts):
+            net, l1, o = build()
+            ic = {l1: {k_: np.array(x_) for k_, x_ in v["L1"].items()}, o: {k_: np.array(x_) for k_, x_ in v["O1"].items()}}
+            net.step(init_conditions=ic, engine=NE(), **opts, **kw)
+            return {el.name: {k_: np.asarray(x_, dtype=float).ravel().tolist() for k_, x_ in el.next_states.items()} for el in (l1, o)}
+
+        try:
+            a = run(vals, positive_init_speed=rng.choice((True, np.True_, 1)))
+            b = run(clamped)
+        except Exception as e:
+            rec.violation(f"{PROP}:user origin kind with a speed state: stepping raised {type(e).__name__}", {"exception": repr(e)[:300]})
+            continue
+        rec.count("user_origin_speed_option_checks")
+        for en, d in a.items():
+            for k_, xs in d.items():
+                if not all((x == y) or abs(x - y) <= 1e-12 * (1 + abs(y)) or (math.isnan(x) and math.isnan(y)) for x, y in zip(xs, b[en][k_])):
+                    rec.violation(f"{PROP}:numpy: positive_init_speed did not reach a user-defined origin kind that owns a speed state (step != plain step on max(0, speed))",
+                                  {"values": vals, "element": en, "state": k_, "with_option": xs, "plain_on_clamped": b[en][k_]})
+                    break
+
+
 def restep_on_own_states(M, rec, rng, g, n_cases):
     """The clamped variant of a model over the same variables: a network is stepped plainly, then stepped again from the
     mappings its elements hold (`{link: link.states}` - the very dict objects - merged with the actions / disturbances
@@ -470,6 +515,7 @@ def run(M, rec, tier, seed, k, n):
     reference_pairs(M, rec, rng, g, 14 if tier == "quick" else 90)
     history_pairs(M, rec, rng, g, 16 if tier == "quick" else 120)
     user_kind_with_a_queue(M, rec, rng, 40 if tier == "quick" else 400)
+    user_origin_with_a_speed_state(M, rec, rng, 40 if tier == "quick" else 400)
     restep_on_own_states(M, rec, rng, g, 30 if tier == "quick" else 300)
 
 
